@@ -187,6 +187,26 @@ def discharge(F, s, cfg):
     return None
 
 
+def inline_helpers(F, t, depth=3):
+    """replace calls of small workspace helper functions by their return expression (parameters substituted)"""
+    if not isinstance(t, tuple) or depth <= 0:
+        return t
+    if t and t[0] == "call" and F.has_body(t[1]) and t[1].startswith("sciparse::") and not t[1].endswith("::min"):
+        hb = F.body(t[1])
+        ro = strip_sites(hb.local_origin(0))
+        if "top" not in tokens(ro) and hb.argc == len(t[2]):
+            args = [inline_helpers(F, a, depth - 1) for a in t[2]]
+
+            def sub(x):
+                if not isinstance(x, tuple):
+                    return x
+                if x and x[0] == "param" and 1 <= x[1] <= len(args):
+                    return args[x[1] - 1]
+                return tuple(sub(y) if isinstance(y, tuple) else y for y in x)
+            return inline_helpers(F, sub(ro), depth - 1)
+    return tuple(inline_helpers(F, x, depth) if isinstance(x, tuple) else x for x in t)
+
+
 _quote_memo = {}
 
 
@@ -199,7 +219,7 @@ def quote_ctor_ok(F, ctor, rng_fn):
     ok = False
     cb, rb = F.body(ctor), F.body(rng_fn)
     if cb is not None and rb is not None:
-        o = strip_sites(cb.local_origin(0))
+        o = inline_helpers(F, strip_sites(cb.local_origin(0)))
         H = None
         if o[0] == "agg" and len(o[2]) == 1:
             e = PN.strip_casts(o[2][0])
